@@ -41,6 +41,7 @@ type KnownFinding struct {
 	Property   string `json:"property"`
 	Obligation string `json:"obligation"`
 	Witness    string `json:"witness"` // spec expression over the function's parameters (entry state)
+	Site       string `json:"site,omitempty"` // source text of the return statement / call the obligation sits on: lets the entry follow its site when return or call ordinals shift
 	What       string `json:"what"`
 	Status     string `json:"status"` // "open" | "fixed"
 	Commit     string `json:"commit,omitempty"`
@@ -108,6 +109,10 @@ func main() {
 		os.Exit(cmdFunc(os.Args[1], os.Args[2:]))
 	case "replay":
 		os.Exit(cmdReplay(os.Args[2:]))
+	case "benign":
+		os.Exit(cmdBenign(os.Args[2:]))
+	case "locals-table":
+		os.Exit(cmdLocalsTable(os.Args[2:]))
 	case "ssa":
 		P, err := LoadProgram("/repo", []string{"./..."})
 		if err != nil {
@@ -137,6 +142,7 @@ func setup(repo, verif string) (*Program, *Specs, float64) {
 		os.Exit(2)
 	}
 	loadKnown(verif)
+	loadLocalsTable(verif)
 	return P, S, time.Since(t0).Seconds()
 }
 
